@@ -241,6 +241,55 @@ def specs_upto(n, **kw):
     return out
 
 
+# -- key variants -------------------------------------------------------------
+# (document key -> replacement key, path key text -> replacement text): the
+# small alphabets only hold the keys a, b and 1; these variants move whole
+# grids onto negative / zero / multi-digit integer keys and number-like or
+# spaced text keys without enlarging the enumeration.
+KEY_VARIANTS = [
+    ("neg-int", [[1, -1]], {"1": "-1"}),
+    ("zero-int", [[1, 0]], {"1": "0"}),
+    ("wide-int", [[1, 12]], {"1": "12"}),
+    ("neg-text", [["a", "-1"]], {"a": "-1"}),
+    ("spaced-text", [["b", "b c"]], {"b": "b c"}),
+]
+
+
+def _keq(a, b):
+    return type(a) is type(b) and a == b
+
+
+def has_key(spec, key):
+    kind = spec[0]
+    if kind == "M":
+        return any(_keq(k, key) or has_key(v, key) for k, v in spec[1])
+    if kind == "L":
+        return any(has_key(v, key) for v in spec[1])
+    if kind == "T":
+        return any(_keq(m, key) for m in spec[1])
+    return False
+
+
+def remap_keys(spec, pairs):
+    """Copy of spec with mapping keys / set members replaced per
+    [[old, new], ...] (compared by type and value)."""
+    def sub(k):
+        for old, new in pairs:
+            if _keq(k, old):
+                return new
+        return k
+    kind = spec[0]
+    anchor = spec[2] if len(spec) > 2 else None
+    if kind == "M":
+        return ["M", [[sub(k), remap_keys(v, pairs)] for k, v in spec[1]],
+                anchor]
+    if kind == "L":
+        return ["L", [remap_keys(v, pairs) for v in spec[1]], anchor]
+    if kind == "T":
+        return ["T", [sub(m) for m in spec[1]], anchor]
+    return spec
+
+
 # -- Hypothesis strategies ---------------------------------------------------
 SCALARS_WIDE = [None, True, False, 0, 1, 2, 300, -1, 0.5, 1.5, "a", "b", "ab",
                 "", "1", "true", "A", "abc", "b c"]
